@@ -71,7 +71,7 @@ func (c05) Gen(r *rand.Rand, tier string, i int) any {
 		c.Text = progText(p)
 		return c
 	}
-	o := gen.ProgOpts{Negation: true, Compare: true, Functions: r.Intn(2) == 0, Lists: r.Intn(3) == 0, Let: true, Do: r.Intn(2) == 0, DoPercent: 50, Mix: r.Intn(3) == 0, DoWildcards: true, MoreNegation: r.Intn(3) == 0,
+	o := gen.ProgOpts{Negation: true, Compare: true, Functions: r.Intn(2) == 0, Lists: r.Intn(3) == 0, Let: true, Do: r.Intn(2) == 0, DoPercent: 50, Mix: r.Intn(3) == 0, DoWildcards: true, DoFilters: true, MoreNegation: r.Intn(3) == 0,
 		Wildcards: r.Intn(2) == 0, Shuffle: 0, FnInAtoms: true, Reducers: []string{"fn:count", "fn:sum", "fn:min", "fn:max", "fn:avg", "fn:collect_distinct"}}
 	p := gen.RandProgram(r, o)
 	if i%4 == 1 {
